@@ -422,6 +422,75 @@ theorem group_member_is_configured_shedder (g : Group) (enabled : Bool) (key t0 
   · intro en' now'
     simp [Group.get, hnew, find_set_self]
 
+/-! ### from the service configuration to the clauses (rest/engine.go, zrpc/server.go) -/
+
+/-- which threshold a route's shedder has. -/
+def routeThreshold (cpuThreshold : Int) (priority : Bool) : Int :=
+  if priority then priorityThreshold cpuThreshold else cpuThreshold
+
+/-- **REST: configuration → shedder.**  For every `CpuThreshold`, every value of `Middlewares.Shedding`, every route
+priority and every value of the package flag: a route has NO shedder (its middleware is absent or the identity) exactly
+when the middleware is off or `CpuThreshold ≤ 0`; otherwise its shedder is
+`NewAdaptiveShedder(WithCpuThreshold(routeThreshold …))` built when the engine was — the nop shedder after `Disable()`. -/
+theorem rest_route_shedder (enabled sheddingMiddleware priority : Bool) (cpuThreshold : Int) (t0 : Nat) :
+    routeShedder sheddingMiddleware (newEngine enabled cpuThreshold t0) priority =
+      if sheddingMiddleware ∧ cpuThreshold > 0 then
+        some (newShedder enabled [.threshold (routeThreshold cpuThreshold priority)] t0)
+      else none := by
+  by_cases hc : cpuThreshold > 0 <;> cases sheddingMiddleware <;> cases priority <;>
+    simp [routeShedder, newEngine, Engine.getShedder, routeThreshold, hc]
+
+/-- for a valid configuration (`range=[0:1000)`) the priority shedder's threshold lies between the configured one and
+cpuMax: priority routes are shed later, and the NaN corner `threshold = cpuMax` is out of reach. -/
+theorem priority_threshold_between (t : Int) (h0 : 0 < t) (h1 : t < 1000) :
+    t ≤ priorityThreshold t ∧ priorityThreshold t < 1000 := by
+  unfold priorityThreshold topCpuUsage
+  constructor <;> omega
+
+theorem step_keeps_threshold (st : St) (op : Op) : (step st op).1.sh.cpuThreshold = st.sh.cpuThreshold := by
+  cases op with
+  | advance d => rfl
+  | allow o c =>
+    simp only [step, Shedder.allow, Shedder.allowWith]
+    split <;> simp [afterGate_threshold]
+  | pass start => simp [step, Shedder.pass, Shedder.release]
+  | fail => simp [step, Shedder.fail, Shedder.release]
+
+theorem run_keeps_threshold (ops : List Op) (st : St) (h : Spec.Hist) :
+    (runH st h ops).1.sh.cpuThreshold = st.sh.cpuThreshold := by
+  induction ops generalizing st h with
+  | nil => rfl
+  | cons op ops ih => rw [runH, ih, step_keeps_threshold]
+
+/-- **REST / zRPC: from the service configuration to clauses 1 and 2.**  For every configuration that turns shedding on
+(`CpuThreshold > 0`; REST: middleware on, any route priority), with load shedding enabled, after EVERY history of
+Allow / Pass / Fail events on the route's (or server's) shedder since it was built at `t0`: a shed is justified and an
+overloaded over-capacity state is shed, with the capacity estimate of the default window (50 buckets of 100 ms) — and with
+the default checker a shed means the CPU reading was at or above the route's threshold, now or within the last second of
+an episode. -/
+theorem service_configuration_meets_spec (rpc priority : Bool) (cpuThreshold : Int) (hc : cpuThreshold > 0) (t0 : Nat)
+    (ht : 0 < t0) (ops : List Op) (cpuOver : Bool) (cpu : Int) :
+    let thr := if rpc then cpuThreshold else routeThreshold cpuThreshold priority
+    let built := if rpc then rpcServerShedder true cpuThreshold t0
+                 else routeShedder true (newEngine true cpuThreshold t0) priority
+    let sh0 := Shedder.new 5000000000 50 thr t0
+    let wc : Spec.WinCfg := ⟨50, 100000000, t0, sh0.windowScale⟩
+    let r := runH ⟨t0, sh0⟩ { now := t0 } ops
+    built = some (.adaptive sh0)
+    ∧ ((r.1.sh.allow r.1.now cpuOver cpu).2 = .overloaded → Spec.ShedJustified wc r.2 cpuOver)
+    ∧ (Spec.MustShed wc r.2 cpuOver → (r.1.sh.allow r.1.now cpuOver cpu).2 = .overloaded)
+    ∧ r.1.sh.cpuThreshold = thr := by
+  intro thr built sh0 wc r
+  have hspec := allow_meets_spec 5000000000 50 thr t0 (by decide) (by decide) ht ops cpuOver cpu
+  refine ⟨?_, hspec.1, hspec.2, ?_⟩
+  · cases rpc
+    · have := rest_route_shedder true true priority cpuThreshold t0
+      simp only [built, Bool.false_eq_true, if_false, this, hc, and_self, if_true]
+      rfl
+    · simp only [built, if_true, rpcServerShedder, hc]
+      rfl
+  · exact run_keeps_threshold ops _ _
+
 /-! ### non-vacuity -/
 
 -- options: defaults, subsets, repeated options
@@ -457,6 +526,13 @@ example : (rpcServe true true End.goexit.abnormal).res = [.pass]
 example : (match newShedder false [.threshold 5, .threshold 7] 1 with | .nop => true | _ => false) = true := by decide
 example : (match newShedder true [.threshold 5, .buckets 4, .threshold 7] 1 with
     | .adaptive s => decide (s.cpuThreshold = 7 ∧ s.passCounter.size = 4) | _ => false) = true := by decide +kernel
+-- service configuration: CpuThreshold 900 → route shedder 900, priority route 950; 0 → no shedder; middleware off → none
+example : routeThreshold 900 true = 950 ∧ routeThreshold 900 false = 900 ∧ priorityThreshold 1 = 500 := by decide
+example : ((routeShedder true (newEngine true 0 1) true).isNone && (routeShedder false (newEngine true 900 1) false).isNone
+    && (match routeShedder true (newEngine false 900 1) true with | some .nop => true | _ => false)
+    && (match routeShedder true (newEngine true 900 1) true with | some (.adaptive s) => decide (s.cpuThreshold = 950) | _ => false))
+    = true := by
+  decide +kernel
 -- a server: three requests arrive, one ends in a panic after 500, one with 503, the third stays in its handler
 def exServer : List SOp :=
   [.arrive false 0, .arrive true 950, .arrive false 0, .advance 3000000,
